@@ -604,4 +604,32 @@ def boundary_sources(spec):
     p.attach_pattern(noicon)
     p.attach_pattern(api.PatternClone(source=0, x=40, y=-3))
     out.append(("bnd-project.sunvox", p))
+    # sibling MetaModules exposing DIFFERENT numbers of user-defined controllers (what is attached is a matter of the instance),
+    # mapped onto signed controllers whose values were set on the embedded side and then mirrored
+    p2 = api.Project()
+    p2.name = "bnd metas"
+    for k, n in enumerate((1, 4, 0, 2)):
+        mm = p2.new_module(cl["MetaModule"])
+        mm.name = "mm%d" % n
+        amp = mm.project.new_module(cl["Amplifier"])
+        ms = mm.project.new_module(cl["MultiSynth"])
+        amp.balance, amp.dc_offset, ms.transpose, ms.finetune = -28 - k, 17 + k, -5 - k, 100 + k
+        targets = [(amp.index, 1), (ms.index, 0), (amp.index, 2), (ms.index, 2)]       # balance, transpose, dc_offset, finetune
+        for j in range(n):
+            mm.mappings.values[j].module, mm.mappings.values[j].controller = targets[j]
+        mm.user_defined_controllers = n
+        mm.update_user_defined_controllers()
+        for j in range(n):
+            mm.user_defined[j].label = ["Cutoff", "", "x y", "Réso"][j]      # (an EMPTY label is a label)
+    # ... and onto the one controller kind whose stored form carries NO offset although its range starts below zero
+    mmv = p2.new_module(cl["MetaModule"])
+    mmv.name = "vorbis"
+    vp = mmv.project.new_module(cl["Vorbis player"])
+    vp.finetune, vp.transpose = -5, -7
+    for j, c_ in enumerate((2, 3)):
+        mmv.mappings.values[j].module, mmv.mappings.values[j].controller = vp.index, c_
+    mmv.user_defined_controllers = 2
+    mmv.update_user_defined_controllers()
+    out.append(("bnd-metas.sunvox", p2))
+    out.append(("bnd-meta4.sunsynth", api.Synth(p2.modules[2].clone())))
     return out
